@@ -38,7 +38,7 @@ Section Par.
     p_fal : nat;
     p_lb : Z; p_ub : Z;
     p_sol : option (list decision);
-    p_upper_bounds : list Z;             (* sized at construction, indexed by thread id *)
+    p_upper_bounds : list Z;             (* sized at construction, indexed by thread id; IMIN = idle (neutral for max) *)
     p_abort : bool;
     p_cache : @cache St;
     p_dom : @dstore St Z;
@@ -61,7 +61,7 @@ Section Par.
         match k_push st_eqb (sc_ranking cfg) nd_empty root with Some f => ([], f, false) | None => ([], nd_empty, true) end
       else ([root], nd_empty, false) in
     mk simple nd O O (upd_nth O S (repeat O (S (nb_vars pb)))) (repeat O (S (nb_vars pb))) O lb IMAX sol
-       (repeat IMAX ctor_threads) false (if sc_use_cache cfg then init_cache (nb_vars pb) else []) (init_dstore (nb_vars pb))
+       (repeat IMIN ctor_threads) false (if sc_use_cache cfg then init_cache (nb_vars pb) else []) (init_dstore (nb_vars pb))
        O crash false (repeat PGetWork nthreads).
 
   Definition set_worker (s : pstate) (w : nat) (p : pc) : pstate :=
@@ -265,10 +265,10 @@ Section Par.
         Some (set_worker (p_enqueue_cutset s inp m (sp_ub n)) w (PNotify n false), SEnqueueCutset)
     | Some (PAbort n) =>
         (* the bound must cover the incumbent, the nodes in progress at the other workers and the best node waiting in the fringe *)
-        let cur := fold_left (fun acc u => if u =? IMAX then acc else Z.max acc u) (p_upper_bounds s) (Z.max (sp_ub n) (p_lb s)) in
+        let cur := fold_left (fun acc u => Z.max acc u) (p_upper_bounds s) (Z.max (sp_ub n) (p_lb s)) in
         let '(s, top) := pf_pop s in
         let cur := match top with Some t => Z.max cur (sp_ub t) | None => cur end in
-        let ub := if p_ub s =? IMAX then cur else Z.max cur (p_ub s) in
+        let ub := if p_abort s then Z.max cur (p_ub s) else cur in
         let s := pf_clear s in
         let s := mk (p_simple s) (p_nodup s) (p_ongoing s) (p_explored s) (p_open s) (p_ongoing_by_layer s) (p_fal s) (p_lb s) ub (p_sol s)
                     (p_upper_bounds s) true (clear (p_cache s)) (p_dom s) (p_polls s) (p_crash s) (p_tie s) (p_workers s) in
@@ -277,7 +277,7 @@ Section Par.
         match p_ongoing s, nth_error (p_ongoing_by_layer s) (sp_depth n), nth_error (p_upper_bounds s) w with
         | S k, Some (S j), Some _ =>
             let s := mk (p_simple s) (p_nodup s) k (p_explored s) (p_open s) (upd_nth (sp_depth n) (fun _ => j) (p_ongoing_by_layer s))
-                        (p_fal s) (p_lb s) (p_ub s) (p_sol s) (upd_nth w (fun _ => IMAX) (p_upper_bounds s)) (p_abort s) (p_cache s)
+                        (p_fal s) (p_lb s) (p_ub s) (p_sol s) (upd_nth w (fun _ => IMIN) (p_upper_bounds s)) (p_abort s) (p_cache s)
                         (p_dom s) (p_polls s) (p_crash s) (p_tie s) (wake_all (p_workers s)) in
             Some (set_worker s w (if exit_after then PExited else PGetWork), SNotifyNodeFinished)
         | _, _, _ => Some (set_worker (p_crashed s) w PExited, SNotifyNodeFinished)
